@@ -132,7 +132,23 @@ def excluded_features(lang):
     return excl, {"failing_units": len(failing), "passing_units": len(passing)}
 
 
-def supported(lang, features, variant, excl):
+def declared_failing(lang, path, variant, feat):
+    """the repository's own verdict for one of its tests/codegen files (exact, by name and header flags)"""
+    info = backend_info(lang)
+    name = os.path.basename(path)
+    if name in info["never_fail"]:
+        return False
+    unit = name + (f"-{variant}" if variant else "")
+    if name in info["fail_names"] or unit in info["fail_names"]:
+        return True
+    cfg = feat.get("config", {})
+    return bool((info["flag_error_context"] and cfg.get("error_context")) or (info["flag_async"] and cfg.get("async")))
+
+
+def supported(lang, features, variant, excl, path=None, feat=None):
+    """generated worlds: feature rule; corpus files: the declared verdict itself"""
+    if path is not None and path.startswith(CORPUS):
+        return not declared_failing(lang, path, variant, feat or {})
     return not (_unit_features(features, variant) & excl)
 
 
